@@ -126,7 +126,7 @@ SpecShapeRvs(size, dim) ==
 \* Distribution records (every record carries every field):
 \*  kind = "fake": exact fake distribution, arguments a = <<x, p1, p2>> (missing = 0), B = 4
 \*     zero    iff (x + z[1]*p1 + z[2]*p2) mod zm = zr
-\*     pdf     =  w0 + x + B*p1 + B*B*p2                       (decided at integer arguments)
+\*     pdf     =  w0 + |x| + B*|p1| + B*B*|p2|     (decided at integer arguments of magnitude <= 5)
 \*     logpdf  = (l0 + l[1]*x + l[2]*p1 + l[3]*p2 + k*|dd[1]*x + dd[2]*p1 + dd[3]*p2 - m|) / 2
 \*  kind = "unif": scipy.stats.uniform, a = <<x, loc (default 0), scale (default 1)>>
 \*     undefined iff scale <= 0;  zero iff not loc <= x <= loc + scale;  pdf = 1/scale
@@ -139,8 +139,8 @@ Reduced(q) == LET g == GCD(Abs(q[1]), q[2]) IN IF g = 0 THEN q ELSE <<q[1] \div 
 
 ZeroSum(d, a) == Arg(a, 1) + d.z[1] * Arg(a, 2) + d.z[2] * Arg(a, 3)
 FakeZero(d, a, u) == ZeroSum(d, a) % (u * d.zm) = u * d.zr
-AllInt(a, u) == \A i \in 1..Len(a) : a[i] % u = 0
-FakePdf(d, a, u) == d.w0 + (Arg(a, 1) \div u) + B * (Arg(a, 2) \div u) + B * B * (Arg(a, 3) \div u)
+AllInt(a, u) == \A i \in 1..Len(a) : a[i] % u = 0 /\ Abs(a[i]) <= 5 * u
+FakePdf(d, a, u) == d.w0 + (Abs(Arg(a, 1)) \div u) + B * (Abs(Arg(a, 2)) \div u) + B * B * (Abs(Arg(a, 3)) \div u)
 KinkArg(d, a, u) == d.dd[1] * Arg(a, 1) + d.dd[2] * Arg(a, 2) + d.dd[3] * Arg(a, 3) - u * d.m
 \* logpdf * 2u
 FakeLogN(d, a, u) == u * d.l0 + d.l[1] * Arg(a, 1) + d.l[2] * Arg(a, 2) + d.l[3] * Arg(a, 3) + d.k * Abs(KinkArg(d, a, u))
